@@ -16,14 +16,16 @@
 //! kind=win (`so=<lo>:<hi> do=<lo>:<hi>`): `encode_into` on sub-slices of larger allocations,
 //!   for every pipeline and every pair (so, do) of the two ranges:
 //!     P.encode_into(&text[B + so .. B + so + len], &mut mem[B' + do .. B' + do + len + dl])
-//!   where B, B' are the indices of a 32-byte aligned address inside the two allocations, so
+//!   where B, B' are the indices of a 64-byte aligned address inside the two allocations, so
 //!   that so / do are the misalignments of the source / destination pointers; the source is
 //!   surrounded by bytes outside the alphabet, the destination by guard symbols. The outcome is
 //!   `ok:<hex of the destination window>`, `err:<code point>` or `panic`, followed by `!g<j>`
 //!   when the element at index j (relative to the window start) outside the window (after a
 //!   panic: anywhere) no longer holds its guard value. Per pipeline the distinct outcomes are
 //!   printed as `w.<P>=<outcome>@<count>@<so>:<do>` (count of offset pairs, first pair showing
-//!   it; an outcome equal to the first one printed on the line is abbreviated `=`); `r.<P>=<outcome>@<count>@<so>` likewise for P.encode_raw(&text[B + so ..][..len]).
+//!   it; an outcome equal to the first one printed on the line is abbreviated `=`); `r.<P>=<outcome>@<count>@<so>` likewise for P.encode_raw(&text[B + so ..][..len])
+//!   (not called with `raw=0`: those cases only write into guarded buffers, so that an encoder
+//!   writing past its slice is observed instead of corrupting the heap).
 //! kind=tab: the symbol tables as the implementation reports them (from_ascii over all
 //!   256 bytes, as_ascii/as_char/as_index over symbols(), as_str(), K, default symbol,
 //!   from_char over a range of chars).
@@ -220,7 +222,7 @@ fn pad_byte(j: usize) -> u8 {
     PAD[j % 7]
 }
 
-const SLACK: usize = 32;
+const SLACK: usize = 64;
 
 struct Agg {
     entries: Vec<(WOut, Option<i64>, usize, String)>,
@@ -246,17 +248,18 @@ fn win_pipeline<A: Alphabet, P: Encode<A>>(
     dl: i64,
     so_r: (usize, usize),
     do_r: (usize, usize),
+    raw: bool,
 ) {
     let n = s.len();
     let m = (n as i64 + dl).max(0) as usize;
     let syms = A::symbols();
     let guard = |j: usize| syms[(j * 7 + 3) % syms.len()];
     // allocations with room for a 32-byte aligned base, the offset, the window and slack
-    let mut text = vec![0u8; n + 3 * SLACK + 32];
-    let mut mem: Vec<A::Symbol> = vec![A::Symbol::default(); m + 3 * SLACK + 32];
+    let mut text = vec![0u8; n + 4 * SLACK];
+    let mut mem: Vec<A::Symbol> = vec![A::Symbol::default(); m + 4 * SLACK];
     assert_eq!(std::mem::size_of::<A::Symbol>(), 1);
-    let tb = text.as_ptr().align_offset(32) + SLACK;
-    let mb = (mem.as_ptr() as *const u8).align_offset(32) + SLACK;
+    let tb = text.as_ptr().align_offset(64) + SLACK;
+    let mb = (mem.as_ptr() as *const u8).align_offset(64) + SLACK;
     let mut agg = Agg { entries: vec![] };
     let mut agg_raw = Agg { entries: vec![] };
     for so in so_r.0..=so_r.1 {
@@ -264,7 +267,7 @@ fn win_pipeline<A: Alphabet, P: Encode<A>>(
             *b = pad_byte(j);
         }
         text[tb + so..tb + so + n].copy_from_slice(s);
-        {
+        if raw {
             let src = &text[tb + so..tb + so + n];
             let r = no_panic(|| p.encode_raw(src));
             let o = match r {
@@ -316,16 +319,16 @@ fn win_pipeline<A: Alphabet, P: Encode<A>>(
     }
 }
 
-fn run_win<A: Alphabet>(s: &[u8], dl: i64, so_r: (usize, usize), do_r: (usize, usize)) -> String {
+fn run_win<A: Alphabet>(s: &[u8], dl: i64, so_r: (usize, usize), do_r: (usize, usize), raw: bool) -> String {
     let mut obs = Obs { first: None, toks: vec![] };
     let g = Pipeline::<A, _>::generic();
-    win_pipeline::<A, _>(&mut obs, "gen", &g, s, dl, so_r, do_r);
+    win_pipeline::<A, _>(&mut obs, "gen", &g, s, dl, so_r, do_r, raw);
     match Pipeline::<A, _>::sse2() {
-        Ok(p) => win_pipeline::<A, _>(&mut obs, "sse2", &p, s, dl, so_r, do_r),
+        Ok(p) => win_pipeline::<A, _>(&mut obs, "sse2", &p, s, dl, so_r, do_r, raw),
         Err(_) => obs.toks.push("w.sse2=unsupported".to_string()),
     }
     match Pipeline::<A, _>::avx2() {
-        Ok(p) => win_pipeline::<A, _>(&mut obs, "avx2", &p, s, dl, so_r, do_r),
+        Ok(p) => win_pipeline::<A, _>(&mut obs, "avx2", &p, s, dl, so_r, do_r, raw),
         Err(_) => obs.toks.push("w.avx2=unsupported".to_string()),
     }
     let have_avx2 = std::is_x86_feature_detected!("avx2");
@@ -336,7 +339,7 @@ fn run_win<A: Alphabet>(s: &[u8], dl: i64, so_r: (usize, usize), do_r: (usize, u
         }
         lightmotif::pli::verif::force_backend(arm);
         let p = Pipeline::<A, _>::dispatch();
-        win_pipeline::<A, _>(&mut obs, &format!("d{}", n), &p, s, dl, so_r, do_r);
+        win_pipeline::<A, _>(&mut obs, &format!("d{}", n), &p, s, dl, so_r, do_r, raw);
         lightmotif::pli::verif::force_backend(None);
     }
     obs.toks.join(" ")
@@ -350,7 +353,7 @@ fn parse_range(s: Option<&String>) -> (usize, usize) {
     let mut it = s.split(':');
     let lo: usize = it.next().and_then(|x| x.parse().ok()).unwrap_or(0);
     let hi: usize = it.next().and_then(|x| x.parse().ok()).unwrap_or(lo);
-    (lo.min(31), hi.min(31).max(lo.min(31)))
+    (lo.min(63), hi.min(63).max(lo.min(63)))
 }
 
 fn run_tab<A: Alphabet>() -> String {
@@ -372,7 +375,7 @@ fn run_tab<A: Alphabet>() -> String {
         .collect();
     toks.push(format!("fa={}", fa.join(",")));
     let mut cps: Vec<u32> = (0..0x180).collect();
-    cps.extend_from_slice(&[0x391, 0x410, 0x7ff, 0x800, 0xff21, 0xffff, 0x1f600, 0x10ffff]);
+    cps.extend_from_slice(&[0x391, 0x410, 0x7ff, 0x800, 0x2126, 0x212a, 0x212b, 0xff21, 0xff41, 0xffff, 0x1d400, 0x1f600, 0xe0041, 0x10ffff]);
     let fc: Vec<String> = cps
         .iter()
         .filter_map(|&cp| char::from_u32(cp))
@@ -510,9 +513,9 @@ fn gen_random(rng: &mut Rng, id: usize) -> String {
     }
     let dl = if rng.chance(3, 100) {
         if rng.chance(1, 2) || l == 0 {
-            1
+            *rng.pick(&[1i64, 1, 16, 32])
         } else {
-            -1
+            -(*rng.pick(&[1i64, 1, 16, 33]).min(&(l as i64)))
         }
     } else {
         0
@@ -564,15 +567,15 @@ fn gen_win(rng: &mut Rng, id: usize, k: usize) -> String {
     }
     let dl = if rng.chance(4, 100) {
         if rng.chance(1, 2) || l == 0 {
-            1
+            *rng.pick(&[1i64, 1, 16, 32])
         } else {
-            -1
+            -(*rng.pick(&[1i64, 1, 16, 33]).min(&(l as i64)))
         }
     } else {
         0
     };
-    let a = rng.below(32);
-    let b = rng.below(32);
+    let a = rng.below(64);
+    let b = rng.below(64);
     let (so, d) = match rng.below(10) {
         0..=2 => ("0:31".to_string(), "0:31".to_string()),
         3..=5 => (format!("{}", a), "0:31".to_string()),
@@ -580,6 +583,29 @@ fn gen_win(rng: &mut Rng, id: usize, k: usize) -> String {
         _ => ("0:15".to_string(), "0:15".to_string()),
     };
     format!("{} kind=win abc={} dl={} so={} do={} hex={}", id, abc, dl, so, d, hex(&s))
+}
+
+/// Texts around 4 KiB / 8 KiB / 64 KiB (page size, 16-bit counters): property check only,
+/// the kernel model is not run on them by the driver.
+const LONG: &[usize] = &[4095, 4096, 4097, 8192, 8193, 65535, 65536, 65537];
+
+fn gen_long(rng: &mut Rng, id: usize, k: usize) -> String {
+    let abc = if (k / LONG.len()) % 2 == 0 { "dna" } else { "protein" };
+    let l = LONG[k % LONG.len()];
+    let mut s = valid_text(rng, abc, l);
+    match rng.below(4) {
+        0 => {}
+        1 => s[l - 1] = bad_value(rng, abc)[0],
+        2 => {
+            let p = (l & !31).min(l - 1);
+            s[p] = bad_value(rng, abc)[0]
+        }
+        _ => {
+            let p = rng.below(l as u64) as usize;
+            s[p] = bad_value(rng, abc)[0]
+        }
+    }
+    line(id, abc, 0, &s)
 }
 
 fn main() {
@@ -592,6 +618,7 @@ fn main() {
             let nsys = total_sys.min(args.n / 2);
             // sub-slice cases: one sixth of the run, interleaved after the systematic part
             let nwin = args.n / 6;
+            let nlong = if args.n >= 1000 { if full { 64 } else { 8 } } else { 0 };
             for id in 0..args.n {
                 if id == 0 {
                     println!("{} kind=tab abc=dna", id);
@@ -599,6 +626,8 @@ fn main() {
                     println!("{} kind=tab abc=protein", id);
                 } else if id - 2 < nsys {
                     println!("{}", gen_systematic(&mut rng, id, id - 2, full));
+                } else if id >= args.n - nlong {
+                    println!("{}", gen_long(&mut rng, id, id - (args.n - nlong)));
                 } else if id - 2 - nsys < nwin {
                     println!("{}", gen_win(&mut rng, id, id - 2 - nsys));
                 } else {
@@ -623,10 +652,11 @@ fn main() {
                     let dl: i64 = f.get("dl").and_then(|s| s.parse().ok()).unwrap_or(0);
                     let so_r = parse_range(f.get("so"));
                     let do_r = parse_range(f.get("do"));
+                    let raw = f.get("raw").map(|s| s != "0").unwrap_or(true);
                     if abc == "dna" {
-                        run_win::<Dna>(&s, dl, so_r, do_r)
+                        run_win::<Dna>(&s, dl, so_r, do_r, raw)
                     } else {
-                        run_win::<Protein>(&s, dl, so_r, do_r)
+                        run_win::<Protein>(&s, dl, so_r, do_r, raw)
                     }
                 } else {
                     let s = unhex(f.get("hex").map(|s| s.as_str()).unwrap_or(""));
